@@ -320,8 +320,8 @@ pub fn run<F: Fam>(s: Shape) {
     let valid = [true, true, true, false, true];
     let mut want = [false; 5];
     // representative subsets (bit i = pool rule i): load-all and load-for-resource draw from these
-    let all_masks: [u64; 7] = [0, 1, 3, 5, 15, 10, if with_dup { 17 } else { 4 }];
-    let res_masks: [u64; 5] = [0, 1, 3, 10, if with_dup { 19 } else { 4 }];
+    let all_masks: [u64; 8] = [0, 1, 3, 5, 15, 10, 8, if with_dup { 17 } else { 4 }];
+    let res_masks: [u64; 6] = [0, 1, 3, 10, 8, if with_dup { 19 } else { 4 }];
     let mut prev_load: i64 = -1;
     // set once both A1 and A1' have been handed to the manager (what it holds is then ambiguous)
     let mut dup_seen = false;
@@ -331,7 +331,7 @@ pub fn run<F: Fam>(s: Shape) {
         let state_dup = dup_seen;
         match op {
             0 => {
-                let mask = all_masks[vrt::any_usize("mask", 0, 6)];
+                let mask = all_masks[vrt::any_usize("mask", 0, 7)];
                 let ret = F::load(subset::<F>(&pool, mask, None));
                 let mut changed = false;
                 for i in 0..5 {
@@ -360,7 +360,7 @@ pub fn run<F: Fam>(s: Shape) {
                     1 => r2(),
                     _ => String::new(),
                 };
-                let mask = res_masks[vrt::any_usize("mask", 0, 4)];
+                let mask = res_masks[vrt::any_usize("mask", 0, 5)];
                 match F::load_res(&res, subset::<F>(&pool, mask, Some(&res))) {
                     None => {}
                     Some(ret) => {
